@@ -12,7 +12,8 @@ pub fn fmt_library(src: &str, width: Option<usize>) -> Result<String, String> {
         let mut out = vec![];
         for s in &stmts {
             out.push(match s {
-                Stmt::Expr(e) => format_expr(e, width),
+                // joined one statement per line, the way the two drivers do it (the rule for a line beginning with `-` included)
+                Stmt::Expr(e) => blots_core::ast_to_source::do_statement_line(out.len(), format_expr(e, width)),
                 Stmt::Output(e) => {
                     let o = blots_core::ast::Spanned::dummy(blots_core::ast::Expr::Output { expr: Box::new(e.clone()) });
                     format_expr(&o, width)
@@ -147,6 +148,12 @@ pub fn replay(case: &J, thorough: bool, cli: Option<&str>, idx: usize) -> J {
     }
     if idx % 5 == 0 {
         check_program(&format!("m = 1\n\n\n{}\noutput m", min), widths, use_cli, &mut mism, &mut evals);
+    }
+    // the expression as a statement of its own after another statement (written in parentheses, so that whatever it begins
+    // with it cannot continue the line above), also below a comment line
+    if idx % 4 == 1 {
+        check_program(&format!("m = 1\n({})\noutput m", min), widths, use_cli, &mut mism, &mut evals);
+        check_program(&format!("m = 1 // note\n// a comment line\n({})", min), widths, None, &mut mism, &mut evals);
     }
     crate::ev::clear_stats();
     json!({"evals": evals, "mismatches": mism})
